@@ -6,13 +6,14 @@ CONSTANTS
   Modes = {"repair"}
   ChainedSet = {TRUE, FALSE}
   Starts = {3}
-  Targets = {3, 4}
+  Targets = {0, 3, 4}
   Corruptions <- CorrQuick
   NT = 1
   FollowRetries = TRUE
   FollowAppend = TRUE
   ResyncChecksRound = TRUE
   ResyncDeletesFirst = FALSE
+  CheckZeroIsClock = FALSE
   Aborts = FALSE
   PinsOperatorHash = TRUE
   MaxAgg = 0
@@ -20,6 +21,6 @@ CONSTANTS
   Linger = FALSE
   History = TRUE
   Eager = FALSE
-INVARIANTS TypeOK Inv_OnlyVerifiedInOrder Inv_NothingFromLiars Inv_Chain Inv_RepairUntouched
+INVARIANTS TypeOK Inv_OnlyVerifiedInOrder Inv_NothingFromLiars Inv_Chain Inv_RepairUntouched Inv_RepairKeepsHead
 VIEW View
 CHECK_DEADLOCK FALSE
